@@ -75,6 +75,9 @@ pub enum Op {
     /// While the handle is held, two requests queue up; the holder releases. Exactly one of the
     /// requests may obtain the state.
     ContendRequests { agent: String },
+    /// While the handle is held a request queues up; the holder releases (the state is handed to the request); the
+    /// request is then dropped without ever being polled again. The state must not be lost with it.
+    AbandonAfterRelease { agent: String },
     Reopen,
     Kill,
 }
@@ -94,6 +97,7 @@ impl Op {
             Op::ReacquireNode { .. } => "reacquire",
             Op::AbandonRequest { .. } => "abandon",
             Op::ContendRequests { .. } => "contend",
+            Op::AbandonAfterRelease { .. } => "abandon_after_release",
             Op::Reopen => "reopen",
             Op::Kill => "kill",
         }
@@ -112,7 +116,8 @@ impl Op {
             | Op::ReleaseNode { agent }
             | Op::ReacquireNode { agent }
             | Op::AbandonRequest { agent }
-            | Op::ContendRequests { agent } => Some(agent),
+            | Op::ContendRequests { agent }
+            | Op::AbandonAfterRelease { agent } => Some(agent),
             Op::Reopen | Op::Kill => None,
         }
     }
@@ -348,6 +353,7 @@ pub fn gen_seq(rng: &Rng, kind: &str, _tier: Tier) -> Seq {
                     0 | 1 => Op::ReleaseNode { agent },
                     2 | 3 | 4 => Op::ReacquireNode { agent },
                     5 => Op::AbandonRequest { agent },
+                    6 if o.chance(1, 2) => Op::AbandonAfterRelease { agent },
                     _ => Op::ContendRequests { agent },
                 }
             } else if o.chance(1, 2) {
@@ -419,7 +425,7 @@ pub fn validate(sc: &StoreScenario) -> Result<(), String> {
                 Op::Reopen | Op::Kill if sc.kind == "mem" => {
                     return Err(format!("seq {si}: {} is not defined for the in-memory store", op.kind()));
                 }
-                Op::AbandonRequest { .. } | Op::ContendRequests { .. } if sc.kind != "mem" => {
+                Op::AbandonRequest { .. } | Op::ContendRequests { .. } | Op::AbandonAfterRelease { .. } if sc.kind != "mem" => {
                     return Err(format!("seq {si}: {} is defined for the in-memory store only", op.kind()));
                 }
                 _ => {}
@@ -481,7 +487,7 @@ fn shrink_seq(seq: &Seq) -> Vec<Seq> {
     }
     // A hand-over is replaced by release + reacquire of an idle entry.
     for (i, op) in seq.ops.iter().enumerate() {
-        if let Op::ContendRequests { agent } | Op::AbandonRequest { agent } = op {
+        if let Op::ContendRequests { agent } | Op::AbandonRequest { agent } | Op::AbandonAfterRelease { agent } = op {
             let mut ops = seq.ops.clone();
             ops[i] = Op::ReacquireNode { agent: agent.clone() };
             out.push(Seq { ops, ..seq.clone() });
